@@ -23,10 +23,11 @@ type cfgCase struct {
 	Kind    []string `json:"kind,omitempty"`     // per service: "" | void | voiderr
 	Perm    []int    `json:"perm,omitempty"`     // registration order (indices)
 	Extra   string   `json:"extra,omitempty"`    // named special configurations
+	DupMask uint32   `json:"dup,omitempty"`      // bit i*N+j: the dependency is declared twice (two parameters / fields of the same identity)
 }
 
 func (c cfgCase) String() string {
-	return fmt.Sprintf("n=%d edges=%v life=%v forms=%v shape=%s missing=%b opt=%b kind=%v perm=%v %s", c.N, adjOf(c.N, c.Mask, false), c.Life, c.Target, c.Shape, c.Missing, c.OptMask, c.Kind, c.Perm, c.Extra)
+	return fmt.Sprintf("n=%d edges=%v life=%v forms=%v shape=%s missing=%b opt=%b dup=%b kind=%v perm=%v %s", c.N, adjOf(c.N, c.Mask, false), c.Life, c.Target, c.Shape, c.Missing, c.OptMask, c.DupMask, c.Kind, c.Perm, c.Extra)
 }
 
 var aliasNames = []string{"IA", "IB"}
@@ -89,6 +90,9 @@ func (c cfgCase) spec() kit.Spec {
 				allPlain = false
 			}
 			r.Deps = append(r.Deps, d)
+			if c.DupMask&(1<<(i*c.N+j)) != 0 {
+				r.Deps = append(r.Deps, d)
+			}
 		}
 		r.In = c.Shape == "in" || !allPlain
 		regs = append(regs, r)
